@@ -42,6 +42,8 @@ CLAIMS = {
          "C++ aliasing / Eigen evaluation order and the statics are observed (exhaustively over ops and masks, sampled over inputs), not proved"),
  "C10": ("proof", "Buffer/view model proved for every buffer, offset, length: a write through a view changes exactly the viewed window and keeps the length, reading back returns exactly what was written (copy/cross-kind assignment exact), a mutating member through a view equals the member on an owning copy of the window and leaves the rest untouched. On the implementation: every operation with owning / Map / Map<const> operands placed at an odd (unaligned) offset between guard zones gives bit-identical answers and intact guards; writes through mutable views (+=, *=, assignment of inverse/rplus/compose results) land in the window only.",
          "byte-level behaviour of Eigen::Map (alignment assumptions, vectorised loads) is runtime; the ASan build is run by the thorough tier"),
+ "C11": ("proof", "Index arithmetic proved for EVERY list of element sizes: compute_indices (transcribed from the template recursion) is the exclusive prefix sum, consecutive offsets differ by the element size, the slices tile the flat vector (concatenated in order they give it back, with the element lengths) - so element<i>() aliases exactly the i-th element. The model's bundle members are defined as slice / element model / place at offset, and are tied bit-for-bit to the C++ Bundle on 11 layouts (every modelled group first, middle, last, repeated, single; Dim != DoF != RepSize != matrix size) for exp, log, compose, inverse, between, plus/minus, act, adj, hat, vee, Jacobians, generators, inner weights, transform, element views, algorithms; the oracle compares every bundle member with the standalone C++ element members placed at their offsets and demands exact zeros off the diagonal blocks.",
+         "layouts in C++ are necessarily finite (11 instantiated); bundles containing SGal3 are not modelled; Random() is checked for validity only"),
 }
 
 checks = []
